@@ -96,12 +96,17 @@ type RecWriter struct {
 	Concurrent int // max concurrent Write calls observed (must stay 1)
 	inflight   int
 	OnWrite    func(i int)
+	// unsync is touched by every Write WITHOUT the recorder's own lock: two Write calls that the
+	// callee does not order (one lock, one goroutine) are then a data race the race detector
+	// reports, whether or not they happen to overlap in time. Never read.
+	unsync int
 }
 
 // NewRecWriter returns a writer that never fails.
 func NewRecWriter() *RecWriter { return &RecWriter{FailAt: -1} }
 
 func (w *RecWriter) Write(p []byte) (int, error) {
+	w.unsync++
 	w.mu.Lock()
 	w.inflight++
 	if w.inflight > w.Concurrent {
